@@ -215,7 +215,26 @@ def run_program(built, rows, seed, structured, perturb=None):
     if core.rng_for("c09eol", seed).random() < 0.25:
         src = src.replace("\n", "\r\n")          # a program saved with CRLF line ends (rustc does not mind)
     with core.Box(tag="c09") as box:
-        box.write("src/main.rs", src)
+        if not (isinstance(perturb, tuple) and perturb[0] == "neighbours"):
+            box.write("src/main.rs", src)
+        else:
+            # the program is one file of a larger source tree: other modules with statements of their own, a file without any, an
+            # empty one, and legacy files that are not valid UTF-8 (they cannot be loaded; the run may report failure for them).
+            # Whatever happens to those, the program's own file must still compile and behave as before.
+            nb = {"src/0_legacy.rs": b'// caf\xe9 (Latin-1)\nfn l() { info!("legacy"); }\n',
+                  "src/a_mod.rs": b'pub fn a() {\n    info!("a one");\n    warn!(k = 1; "a two");\n}\n',
+                  "src/m/deep.rs": b'pub fn d() { error!("deep"); }\n',
+                  "src/n_plain.rs": b'pub const N: usize = 3;\n', "src/o_empty.rs": b'',
+                  "src/z_mod.rs": b'// filler filler filler filler\npub fn z() {\n\n\n        info!("z one"); warn!("z two");\n}\n',
+                  "src/zz/zz_legacy.rs": b'\xff\xfe not text'}
+            chosen = {rel: nb[rel] for rel in (sorted(nb)[:3 + int(perturb[1] * 5)] if perturb[1] < 0.8 else sorted(nb))}
+            chosen["src/0_legacy.rs"] = nb["src/0_legacy.rs"]
+            chosen["src/main.rs"] = src
+            order = sorted(chosen)
+            # (the order in which a directory lists its entries follows the order of creation on some file systems: vary it)
+            core.rng_for("c09order", seed).shuffle(order)
+            for rel in order:
+                box.write(rel, chosen[rel])
         cfgtext = core.make_config(structured=True if structured else None, use_cache=False, macros=C09_MACROS)
         cfg = box.write("Breadlog.yaml", cfgtext)
         before, err0 = compile_run(os.path.join(box.proj, "src/main.rs"), os.path.join(box.root, "before.bin"))
@@ -224,7 +243,7 @@ def run_program(built, rows, seed, structured, perturb=None):
         rules = None
         if perturb == "short-all":
             rules = "kind=write,act=short;kind=read,act=short"
-        elif perturb:
+        elif perturb and perturb[0] == "partial":
             from .. import fault
             with core.Box(tag="c09d") as dry:
                 dry.write("src/main.rs", src)
@@ -290,13 +309,13 @@ def work(job):
     res = {"evaluations": 1, "nontrivial": [], "violations": [], "samples": [], "inconclusive": {}, "counters": {}}
     pr = core.rng_for("c09perturb", seed, pi)
     x = pr.random()
-    perturb = "short-all" if x < 0.12 else (("partial", pr.random()) if x < 0.3 else None)
+    perturb = "short-all" if x < 0.12 else (("partial", pr.random()) if x < 0.3 else (("neighbours", pr.random()) if x < 0.52 else None))
     r = run_program(built, rows, "%d-%d" % (seed, pi), structured, perturb)
     if "gen_error" in r:
         # the *generated* program does not compile: harness problem, bisect to drop offending generator rows
         res["inconclusive"]["generated program does not compile (generator bug): " + r["gen_error"].strip().splitlines()[0][:120]] = 1
         return res
-    res["counters"]["edit_run_%s" % (perturb if isinstance(perturb, str) else ("partial-write-failure" if perturb else "undisturbed"))] = 1
+    res["counters"]["edit_run_%s" % (perturb if isinstance(perturb, str) else (("partial-write-failure" if perturb[0] == "partial" else "in-a-tree-with-other-and-unloadable-files") if perturb else "undisturbed"))] = 1
     if isinstance(perturb, tuple):
         # the edit run may legitimately fail and leave the program as it was: every statement is then either untouched or
         # faithfully edited - but the program on disk must compile and behave as before in any case
@@ -310,7 +329,8 @@ def work(job):
         res["counters"]["programs"] = 1
         res["counters"]["records_compared"] = len(r["before"])
         for clause, i, detail in v:
-            res["violations"].append({"signature": "C09.%s|%s|edit-run-with-partial-write-failure" % (clause, "structured" if structured else "unstructured"),
+            res["violations"].append({"signature": "C09.%s|%s|%s" % (clause, "structured" if structured else "unstructured",
+                                                                         "edit-run-with-partial-write-failure" if perturb[0] == "partial" else "program-in-a-tree-with-unloadable-files"),
                                       "detail": dict(detail, edit_exit=r["edit"].ended(), after_source_excerpt=r["after_src"][:300]),
                                       "case": {"rows": rows, "structured": structured, "perturb": list(perturb), "seedtag": "%d-%d" % (seed, pi)}})
             break
